@@ -32,7 +32,7 @@ func init() {
 			}
 			return 40
 		},
-		RunCase: c08Run,
+		RunCase:  c08Run,
 		Children: func(env *core.Env) int { return 8 },
 	})
 }
